@@ -164,6 +164,7 @@ struct IWorld {
 
     // generator (C12 / C13)
     virtual std::string write_static_offsets() = 0;
+    virtual std::string write_static_offsets_after_encode(const generic_compiler& c) = 0; // same stream as encode_dispatch_data
     virtual std::string encode(const generic_compiler& c) = 0;
     virtual std::string encode_for_default_policy(const generic_compiler& c) = 0;
     virtual std::string forward_declarations_of_methods(bool via_wrapper) = 0; // C19
